@@ -581,11 +581,5 @@ U_BOTH = Unit(P + '/lemma-both-forms', [], t_both_forms, SCHEMA, kind='lemma')
 UNITS = [U_PC_ADD, U_ITERS, U_TAGS, U_REG_SRC, U_REG_LOAD, U_LIST_SRC, U_LIST_LOAD, U_BOTH]
 
 
-def _late_units():
-    # the slices of main() that turn the user's strings into calls of register_source / register_load,
-    # and the per-object block contract of compute_connections (INV_BLOCK)
-    from . import C20, C12
-    return [C20.U_EXC, C20.U_ATT, C12.U_PULSES]
-
-
-UNITS = UNITS + _late_units()
+# units of other modules that also run under this property (resolved by the runner after import)
+EXTRA_UNITS = [('contracts.C20', 'U_EXC'), ('contracts.C20', 'U_ATT'), ('contracts.C12', 'U_PULSES')]
